@@ -333,6 +333,7 @@ func runC14(p *eng.Prog, r *eng.Report, tier string) {
 	c := &cx{p, r, tier}
 	c14Stanza(c)
 	stanzaIsTable(c, "C14.9")
+	jidCore(c, "C14.11")
 	decodedStanzaNotRewritten(c, "C14.10", []string{"mux.(*ServeMux).iqRouter", "mux.(*ServeMux).msgRouter", "mux.(*ServeMux).presenceRouter"}, 3)
 	c14Handler(c)
 	c14Routers(c)
@@ -374,87 +375,7 @@ func runC14(p *eng.Prog, r *eng.Report, tier string) {
 		}
 	}
 	c.r.Floor("C14.4", "func-to-interface conversions in the *Func options", nfn, 4)
-	// ---- C14.5 the replay buffer -----------------------------------------------------
-	// (a) every token handed out is in the replay buffer (a later handler of
-	// the same stanza replays exactly what the earlier one read, including a
-	// token that arrives together with io.EOF);
-	if bt := c.fn("C14.5", "mux", "(*bufReader).Token"); bt != nil {
-		g := bt.Graph()
-		isApp := func(q eng.Point, nd ast.Node) bool {
-			for _, w := range bt.FieldWrites("mux.bufReader.buf") {
-				if w.Stmt == nd {
-					return true
-				}
-			}
-			return false
-		}
-		n := 0
-		for _, cl := range bt.Calls("encoding/xml.TokenReader.Token") {
-			tp, _ := g.Where(cl)
-			cn := bt.Norm(cl, &tp)
-			for _, rs := range g.Returns {
-				rp, _ := g.Where(rs)
-				if !g.Reachable(g.After(tp), rp, nil, nil) || len(rs.Results) != 2 {
-					continue
-				}
-				n++
-				// the token may be non-nil at this return unless tok == nil was established
-				if ok, _ := g.Dominated(rp, "eq("+cn+"#0,nil)"); ok {
-					continue
-				}
-				nilCut := eng.Cut{}
-				for _, ce := range g.EdgesMatching("eq(" + cn + "#0,nil)") {
-					nilCut[ce.E] = true
-				}
-				c.r.Check("C14.5", bt, "token recorded before it is returned", "S: every token read from the underlying reader is appended to the replay buffer before it is handed out (also when it arrives together with an error)", rs.Pos(), !g.Reachable(g.After(tp), rp, nilCut, isApp), "a non-nil token can be returned without being recorded: the next handler of the same stanza replays a truncated element")
-			}
-		}
-		c.r.Floor("C14.5", "returns after the underlying read in bufReader.Token", n, 1)
-	}
-	// (b) the replay buffer belongs to one dispatch: it is allocated per stanza
-	// and the multiplexer keeps no per-dispatch state (its fields are written
-	// by registration options only)
-	nlit := 0
-	for _, f := range c.allFns() {
-		if !strings.HasPrefix(f.Short, "mux.") {
-			continue
-		}
-		g := f.Graph()
-		for _, lit := range f.WalkLits("mux.bufReader") {
-			if bv := structLitField(lit, "buf"); bv != nil {
-				nlit++
-				pt, _ := g.Where(lit)
-				okf, why := freshSlice(f, bv, pt, map[*eng.Def]bool{})
-				if !okf {
-					// a replay reader over the buffer of THIS dispatch's reader
-					if sel, ok := ast.Unparen(bv).(*ast.SelectorExpr); ok && sel.Sel.Name == "buf" {
-						if k, _ := f.FieldClass(sel); k == "mux.bufReader.buf" {
-							if v := rootLocal(f, sel.X); v != nil {
-								okf, why = true, ""
-							}
-						}
-					}
-				}
-				c.r.Check("C14.5", f, "replay buffer allocated per stanza", "E-alias: the replay buffer of a dispatch is freshly allocated (a buffer kept on the multiplexer is overwritten by a nested or concurrent dispatch)", lit.Pos(), okf, why)
-			}
-		}
-		// registration options: closures of type func(*ServeMux)
-		isOpt := false
-		if f.Lit != nil {
-			if sig := f.Sig(); sig != nil && sig.Params().Len() == 1 && sig.Results().Len() == 0 && eng.TypeStr(sig.Params().At(0).Type()) == "*mux.ServeMux" {
-				isOpt = true
-			}
-		}
-		if isOpt || f.Short == "mux.New" {
-			continue
-		}
-		for _, w := range f.Writes() {
-			if k, ok := f.FieldClass(w.LHS); ok && strings.HasPrefix(k, "mux.ServeMux.") {
-				c.r.Check("C14.5", f, "write to "+k, "W: routing never writes the multiplexer's fields (they are configured by the registration options only)", w.Stmt.Pos(), false, "per-dispatch state kept on the shared multiplexer in "+f.Short)
-			}
-		}
-	}
-	c.r.Floor("C14.5", "bufReader literals", nlit, 1)
+	c14ReplayBuffer(c, "C14.5")
 }
 
 func c14Stanza(c *cx) {
@@ -1030,4 +951,90 @@ func c14TrimmerFiltersEveryToken(c *cx, id string) {
 			c.r.Check(id, f, "white space is not handed on", "O: after the character loop found only white space the filter returns nil with an error or continues with the next token through itself", rs.Pos(), okr, "returns "+nrm)
 		}
 	}
+}
+
+// c14ReplayBuffer (C14.5, also C18.21): the buffer from which the handlers of
+// the later children of one stanza replay what earlier handlers read.
+func c14ReplayBuffer(c *cx, rid string) {
+	// ---- C14.5 the replay buffer -----------------------------------------------------
+	// (a) every token handed out is in the replay buffer (a later handler of
+	// the same stanza replays exactly what the earlier one read, including a
+	// token that arrives together with io.EOF);
+	if bt := c.fn(rid, "mux", "(*bufReader).Token"); bt != nil {
+		g := bt.Graph()
+		isApp := func(q eng.Point, nd ast.Node) bool {
+			for _, w := range bt.FieldWrites("mux.bufReader.buf") {
+				if w.Stmt == nd {
+					return true
+				}
+			}
+			return false
+		}
+		n := 0
+		for _, cl := range bt.Calls("encoding/xml.TokenReader.Token") {
+			tp, _ := g.Where(cl)
+			cn := bt.Norm(cl, &tp)
+			for _, rs := range g.Returns {
+				rp, _ := g.Where(rs)
+				if !g.Reachable(g.After(tp), rp, nil, nil) || len(rs.Results) != 2 {
+					continue
+				}
+				n++
+				// the token may be non-nil at this return unless tok == nil was established
+				if ok, _ := g.Dominated(rp, "eq("+cn+"#0,nil)"); ok {
+					continue
+				}
+				nilCut := eng.Cut{}
+				for _, ce := range g.EdgesMatching("eq(" + cn + "#0,nil)") {
+					nilCut[ce.E] = true
+				}
+				c.r.Check(rid, bt, "token recorded before it is returned", "S: every token read from the underlying reader is appended to the replay buffer before it is handed out (also when it arrives together with an error)", rs.Pos(), !g.Reachable(g.After(tp), rp, nilCut, isApp), "a non-nil token can be returned without being recorded: the next handler of the same stanza replays a truncated element")
+			}
+		}
+		c.r.Floor(rid, "returns after the underlying read in bufReader.Token", n, 1)
+	}
+	// (b) the replay buffer belongs to one dispatch: it is allocated per stanza
+	// and the multiplexer keeps no per-dispatch state (its fields are written
+	// by registration options only)
+	nlit := 0
+	for _, f := range c.allFns() {
+		if !strings.HasPrefix(f.Short, "mux.") {
+			continue
+		}
+		g := f.Graph()
+		for _, lit := range f.WalkLits("mux.bufReader") {
+			if bv := structLitField(lit, "buf"); bv != nil {
+				nlit++
+				pt, _ := g.Where(lit)
+				okf, why := freshSlice(f, bv, pt, map[*eng.Def]bool{})
+				if !okf {
+					// a replay reader over the buffer of THIS dispatch's reader
+					if sel, ok := ast.Unparen(bv).(*ast.SelectorExpr); ok && sel.Sel.Name == "buf" {
+						if k, _ := f.FieldClass(sel); k == "mux.bufReader.buf" {
+							if v := rootLocal(f, sel.X); v != nil {
+								okf, why = true, ""
+							}
+						}
+					}
+				}
+				c.r.Check(rid, f, "replay buffer allocated per stanza", "E-alias: the replay buffer of a dispatch is freshly allocated (a buffer kept on the multiplexer is overwritten by a nested or concurrent dispatch)", lit.Pos(), okf, why)
+			}
+		}
+		// registration options: closures of type func(*ServeMux)
+		isOpt := false
+		if f.Lit != nil {
+			if sig := f.Sig(); sig != nil && sig.Params().Len() == 1 && sig.Results().Len() == 0 && eng.TypeStr(sig.Params().At(0).Type()) == "*mux.ServeMux" {
+				isOpt = true
+			}
+		}
+		if isOpt || f.Short == "mux.New" {
+			continue
+		}
+		for _, w := range f.Writes() {
+			if k, ok := f.FieldClass(w.LHS); ok && strings.HasPrefix(k, "mux.ServeMux.") {
+				c.r.Check(rid, f, "write to "+k, "W: routing never writes the multiplexer's fields (they are configured by the registration options only)", w.Stmt.Pos(), false, "per-dispatch state kept on the shared multiplexer in "+f.Short)
+			}
+		}
+	}
+	c.r.Floor(rid, "bufReader literals", nlit, 1)
 }
